@@ -736,21 +736,34 @@ Proof. intros Hf Hsm. apply (run_track_inv v cs w es Hf Hsm). Qed.
 Lemma who_eqb_true w w' : who_eqb w w' = true -> w' = w.
 Proof. destruct w, w'; intros H; try discriminate H; reflexivity. Qed.
 
-Definition promotion_cause (cs : cfgs) (s : pair) (w : who) (e : ev) : Prop :=
+(* a heartbeat makes a STANDBY / STANDBY_ALONE group active only when it wins the election against the
+   priority carried by THAT heartbeat (and, from STANDBY, only with preempt or against a STANDBY peer) *)
+Lemma hb_core_promotes v pre first st mst w :
+  st = Standby \/ st = StandbyAlone -> is_active (hb_core v pre first st mst w) = true ->
+  w = true /\ (st = Standby -> pre = true \/ (fix_hb v = true /\ mst = Standby)).
+Proof.
+  destruct v as [fh fi ff fs fa]. intros [-> | ->]; destruct first, pre, fh, ff, fs, mst, w; cbn;
+    intros H; try discriminate H; split; auto; intros; try discriminate; auto.
+Qed.
+
+Definition promotion_cause (v : variant) (cs : cfgs) (s : pair) (w : who) (e : ev) : Prop :=
   let st := n_st (node_of w s) in
   match e with
   | ESwLocal w' f => w' = w /\ (st = StandbyAlone -> f = true)
   | ESwRemote w' => w' = w /\ st = Standby
   | EIf w' k d => w' = w /\ d = true /\ tracked (cfg_of w cs) k = true /\ st = StandbyAlone
   | EPeerLost w' => w' = w /\ st = Standby /\ 0 < n_cnt (node_of w s)
-  | EDeliver w' i => w' = w /\ queue_to w s <> []
+  | EDeliver w' i =>
+      w' = w /\ exists m, nth_error (queue_to w s) (i mod length (queue_to w s))%nat = Some m /\
+                         wins_raw (c_id (cfg_of w cs)) (n_eff (node_of w s)) (h_prio m) (h_id m) = true /\
+                         (st = Standby -> c_preempt (cfg_of w cs) = true \/ (fix_hb v = true /\ h_st m = Standby))
   | _ => False
   end.
 
 Lemma promotion_justified v cs s e w :
   (n_st (node_of w s) = Standby \/ n_st (node_of w s) = StandbyAlone) ->
   is_active (n_st (node_of w (fst (step v cs s e)))) = true ->
-  promotion_cause cs s w e.
+  promotion_cause v cs s w e.
 Proof.
   rewrite step_node. intros Hst Hact.
   assert (Hna : is_active (n_st (node_of w s)) = false) by (destruct Hst as [E|E]; rewrite E; reflexivity).
@@ -759,10 +772,10 @@ Proof.
     (destruct (who_eqb w w') eqn:Ew; [apply who_eqb_true in Ew; subst w' | congruence]).
   - destruct (start_facts (node_of w s)) as (_ & _ & Hs). rewrite Hs in Hact.
     destruct Hst as [E|E]; rewrite E in Hact; discriminate Hact.
-  - split; [reflexivity|]. destruct (queue_to w s) eqn:Q; [|discriminate]. exfalso.
-    assert (N : nth_error (@nil hb) (i mod length (@nil hb))%nat = None)
-      by (destruct (i mod length (@nil hb))%nat; reflexivity).
-    rewrite N in Hact. congruence.
+  - split; [reflexivity|].
+    destruct (nth_error (queue_to w s) (i mod length (queue_to w s))%nat) as [m|]; [|congruence].
+    exists m. split; [reflexivity|]. rewrite handle_hb_spec in Hact. cbn [n_st] in Hact.
+    apply (hb_core_promotes _ _ _ _ _ _ Hst Hact).
   - destruct (peer_lost_facts (node_of w s)) as (_ & _ & Hs). rewrite Hs in Hact.
     destruct Hst as [E|E]; rewrite E in Hact; [|discriminate Hact].
     split; [reflexivity|]. split; [exact E|].
@@ -820,7 +833,7 @@ Lemma no_self_promotion_run v cs es e w :
   let s := run v cs (init_pair cs) es in
   (n_st (node_of w s) = Standby \/ n_st (node_of w s) = StandbyAlone) ->
   is_active (n_st (node_of w (fst (step v cs s e)))) = true ->
-  promotion_cause cs s w e.
+  promotion_cause v cs s w e.
 Proof. intros s. apply promotion_justified. Qed.
 
 Lemma converges_run v cs es w1 w2 w3 :
@@ -833,4 +846,24 @@ Proof.
   intros Hf Hne s Ha Hb. apply converges; auto.
   - apply (run_started_ok v cs es A Ha).
   - apply (run_started_ok v cs es B Hb).
+Qed.
+
+(* ------------------------------------------------------------------ stale views *)
+(* whatever each side believed before (stale, never heard, ...): after ONE fresh exchange both hold the
+   other's current priority, so the antisymmetry hypotheses hold and exactly one of them wins *)
+Lemma exchange_refreshes_views v cs w a b :
+  let r := xchg v cs w (a, b) in
+  n_eff (fst r) = n_eff a /\ n_eff (snd r) = n_eff b /\
+  n_pprio (fst r) = n_eff (snd r) /\ n_pprio (snd r) = n_eff (fst r).
+Proof.
+  destruct cs as [ca cb]. unfold xchg, snapshot. destruct w; rewrite !handle_hb_spec; cbn; auto.
+Qed.
+
+Lemma antisym_after_exchange v cs w a b :
+  c_id (fst cs) <> c_id (snd cs) ->
+  let r := xchg v cs w (a, b) in
+  wins (fst cs) (fst r) (c_id (snd cs)) = negb (wins (snd cs) (snd r) (c_id (fst cs))).
+Proof.
+  intros Hne r. destruct (exchange_refreshes_views v cs w a b) as (_ & _ & H1 & H2).
+  apply wins_antisym; assumption.
 Qed.
